@@ -252,6 +252,40 @@ def r5(ctx, prog):
         ctx.ob('C12.R5', '%s|close-after-last' % sc.name, False, 'onTcpSendCompleted never disconnects: the connection stays open after the close response', where=sc.loc(sc.body))
 
 
+def r10(ctx, prog):
+    ctx.rule('C12.R10', 'A5 per-request parser state: every RequestParser member that parse() updates relative to its old value (+=, ++, -=) is given an absolute value at the '
+             'start of each request (the state_ == kInit stage), so that nothing accumulates over the requests of a keep-alive connection', floor=1)
+    f = prog.fn1(PARSER + '::parse')
+    rel = []
+    for st in f.stmts:
+        if not st:
+            continue
+        tgt = None
+        if st['k'] == 'CompoundAssignOperator' and st.get('op') in ('+=', '-=', '*=', '|='):
+            tgt = st['ch'][0]
+        elif st['k'] == 'UnaryOperator' and st.get('op') in ('++', '--'):
+            tgt = st['ch'][0]
+        if tgt is not None:
+            fq = f.field_of(tgt)
+            if fq and fq.startswith(PARSER + '::'):
+                rel.append((st, fq))
+    # the kInit stage: statements controlled by the true edge of `state_ == kInit`
+    init_pts = []
+    for b in f.cfg.blocks.values():
+        if b.cond is not None and q.edge_says(f, b.cond, 0, lambda l: l.endswith('state_'), ('==',), lambda r: r.endswith('kInit')):
+            init_pts.append((b.cond, b.id))
+    if not init_pts:
+        raise AnalysisBroken('RequestParser::parse: the state_ == kInit stage was not found')
+    for st, fq in rel:
+        short = fq.split('::')[-1]
+        absol = [a for a, rhs in q.assigns(f, short) if a['k'] == 'BinaryOperator' and a.get('op') == '=' and
+                 any(c_ == ic and k_ == 0 for c_, k_, b_ in f.cfg.controlling_branches(q.pt(f, a)) for ic, ib in init_pts)]
+        ctx.ob('C12.R10', '%s|%s' % (f.name, short), bool(absol), '%s is re-initialised in the kInit stage' % short if absol else
+               '%s is updated relative to its previous value at %s but never given a fresh value when a new request starts: it keeps growing over the requests of one connection'
+               % (short, f.loc(st['i'])), where=f.loc(st['i']))
+    ctx.ob('C12.R10', '%s|relative-updates' % f.name, True, '%d relative member updates in parse() examined' % len(rel))
+
+
 def r7(ctx, prog):
     ctx.rule('C12.R7', 'A12 boundary agreement: close_index is the index of the closing request, whose response must still be sent; every comparison of '
              'res_index / a response index with close_index draws the line at the same place ("past the last" == index > close_index)', floor=1)
@@ -321,16 +355,20 @@ def r8(ctx, prog):
                 continue
             how = f.s(f.strip_casts(c['args'][-1])).get('cv') if c.get('args') else None
             n += 1
-            if how == 1:     # SHUT_WR only
-                ctx.ob('C12.R8', '%s|shutdown(SHUT_WR)' % f.name, True, 'write-side shutdown does not produce a local end-of-stream', where=f.loc(c['i']))
-                continue
+            hname = {0: 'SHUT_RD', 1: 'SHUT_WR', 2: 'SHUT_RDWR'}.get(how, '?')
             g = f.cfg.controlling_branches(q.pt(f, c))
             done = any((lambda r_: r_ is not None and ((r_[0].endswith('res_index') and r_[1] == '>' and r_[2].endswith('close_index')) or
                                                         (r_[0].endswith('close_index') and r_[1] == '<' and r_[2].endswith('res_index'))))(q.edge_relation(f, cond, k)) for cond, k, b in g)
-            ctx.ob('C12.R8', '%s|shutdown(%s)' % (f.name, {0: 'SHUT_RD', 2: 'SHUT_RDWR'}.get(how, '?')), done,
-                   'read-side shutdown only after the last response was sent' if done else
-                   'the server shuts down the read side of a connection that still owes responses: the next loop pass reads 0, TcpConnection::onSocketClosed '
-                   'drops the send queue and onTcpDisconnected deletes the record — the response of a handler that completes later (and the unsent tail of a large one) is lost',
+            # "sent" is only known in the send-complete callback: TcpServer::send() may leave part of the data in the connection's send queue
+            drained = prog.outermost(f).name == IMPL + '::onTcpSendCompleted'
+            ok = done and drained
+            ctx.ob('C12.R8', '%s|shutdown(%s)' % (f.name, hname), ok,
+                   'transport shutdown only in the send-complete callback after the last response (res_index > close_index)' if ok else
+                   ('the server shuts down the read side of a connection that still owes responses: the next loop pass reads 0, TcpConnection::onSocketClosed '
+                    'drops the send queue and onTcpDisconnected deletes the record — the response of a handler that completes later (and the unsent tail of a large one) is lost'
+                    if how in (0, 2) and not done else
+                    'the server shuts down the %s side outside the send-complete callback: TcpServer::send() may still hold part of the response in the send queue, '
+                    'every later write fails and the client receives a truncated response' % ('write' if how == 1 else 'socket')),
                    where=f.loc(c['i']))
     ctx.ob('C12.R8', 'http/server|shutdown-sites', True, '%d transport shutdown call(s) in http/server examined' % n)
 
@@ -358,6 +396,7 @@ def run(ctx):
     ctx.guard(r6, ctx, prog)
     ctx.guard(r7, ctx, prog)
     ctx.guard(r8, ctx, prog)
+    ctx.guard(r10, ctx, prog)
     ctx.guard(harden.run, ctx, prog, 'C12.R9', recv_entries(prog),
               lambda g: g.file.startswith(MODULES + '/http/') or g.file.startswith(MODULES + '/util/'), 'HTTP receive/commit path')
     return prog
